@@ -73,6 +73,7 @@ func runC17(c *core.Ctx) {
 	c.Rule("R9", "StopAsync cancels on the result of the atomic switch (a racing start is not lost)", 1)
 	c.Rule("R11", "listener registry keyed by identity: the remove function takes out the channel its AddListener registered", 1)
 	c.Rule("R12", "timer service: an iteration's error is the run function's result on every path", 1)
+	c.Rule("R13", "the transition function is an atomic compare-and-set: the state is written ⇔ it equals the expected state, both under one hold of the write lock", 1)
 	c.Rule("R10", "failure fan-in: every failure report is delivered with a blocking send", 1)
 	pkg := c.Prog.Pkg("services")
 	if pkg == nil {
@@ -200,6 +201,7 @@ func runC17(c *core.Ctx) {
 	c17FailureWatcher(c, pkg)
 	c17Listeners(c, pkg)
 	c17Timer(c, pkg)
+	c17CompareAndSet(c)
 }
 
 // c17Listeners (R11): the listener registry is keyed by identity. AddListener registers a channel it
@@ -1078,4 +1080,75 @@ func c17FailureWatcher(c *core.Ctx, pkg *packages.Package) {
 		}
 	}
 	c.Check(len(bad) == 0 && len(sends) >= 1 && nCb == 2, "R10", "failure-watcher:delivery", pkg.Syntax[0].Pos(), fmt.Sprintf("%d send(s) on the failure channel, each blocking and on every path; both Watch* callbacks deliver; problems: %v", len(sends), bad), len(sends)+2)
+}
+
+// c17CompareAndSet (R13): every transition relies on switchState comparing the state with `from` and
+// writing `to` without another writer in between. Decided as: (a) the write of the state executes
+// exactly when the field itself — read in this function, not through an accessor that takes and releases
+// the lock on its own — equals the expected state; (b) the write lock is taken once, before that
+// comparison, and released only by a defer.
+func c17CompareAndSet(c *core.Ctx) {
+	pkg := c.Prog.Pkg("services")
+	fn := an.FindFunc(pkg, "BasicService.switchState")
+	if fn == nil {
+		c.Miss("R13", "func=BasicService.switchState", "not found")
+		return
+	}
+	c.Analysed(fn.String())
+	g := fn.Graph()
+	var writes []ast.Node
+	var locks, unlocks, deferred []*ast.CallExpr
+	fn.InspectShallow(func(n ast.Node) bool {
+		switch x := n.(type) {
+		case *ast.AssignStmt:
+			for _, l := range x.Lhs {
+				if fn.Canon(l) == "recv.state" {
+					writes = append(writes, x)
+				}
+			}
+		case *ast.DeferStmt:
+			if fn.Canon(x.Call.Fun) == "recv.stateMu.Unlock" {
+				deferred = append(deferred, x.Call)
+			}
+		case *ast.CallExpr:
+			switch fn.Canon(x.Fun) {
+			case "recv.stateMu.Lock":
+				locks = append(locks, x)
+			case "recv.stateMu.Unlock":
+				unlocks = append(unlocks, x)
+			}
+		}
+		return true
+	})
+	if len(writes) != 1 || len(locks) != 1 {
+		c.Undec("R13", "func=BasicService.switchState", fn.Pos(), fmt.Sprintf("expected one write of the state and one acquisition of the write lock, found %d and %d", len(writes), len(locks)))
+		return
+	}
+	// from the entry an unlocked pre-check through the accessor is tolerated (double-checked switch); from the
+	// acquisition of the lock only the field itself counts
+	t0 := an.Table{G: g, From: g.EntryLoc(), FreeUnknown: true, Atoms: []an.Atom{{Name: "expected", Values: []string{"T", "F"}}},
+		Binder: &an.Binder{Fn: fn, Eq: map[string]string{"recv.state|p0": "expected", "recv.State()|p0": "expected"}}, Targets: []an.Loc{g.Locate(writes[0])}, Names: []string{"state = to"},
+		Want: func(r an.Row, _ int) an.Tri { return an.FromBool(r["expected"] == "T") }}
+	res0 := t0.Run()
+	t := an.Table{G: g, From: g.Locate(locks[0]), FreeUnknown: true, Atoms: []an.Atom{{Name: "expected", Values: []string{"T", "F"}}},
+		Binder: &an.Binder{Fn: fn, Eq: map[string]string{"recv.state|p0": "expected"}}, Targets: []an.Loc{g.Locate(writes[0])}, Names: []string{"state = to"},
+		Want: func(r an.Row, _ int) an.Tri { return an.FromBool(r["expected"] == "T") }}
+	res := t.Run()
+	if !res0.OK() {
+		res = res0
+	}
+	// the comparison that guards the write: every read of the field in a condition comes after the Lock
+	readsAfterLock := true
+	fn.InspectShallow(func(n ast.Node) bool {
+		if be, ok := n.(*ast.BinaryExpr); ok && (be.Op == token.EQL || be.Op == token.NEQ) {
+			if x, y := fn.Canon(be.X), fn.Canon(be.Y); (x == "recv.state" && y == "p0") || (y == "recv.state" && x == "p0") {
+				if !g.NodeBefore(locks[0], be) {
+					readsAfterLock = false
+				}
+			}
+		}
+		return true
+	})
+	oneHold := len(deferred) == 1 && len(unlocks) == 1 && readsAfterLock && g.NodeBefore(locks[0], writes[0])
+	c.Check(res.OK() && oneHold, "R13", "func=BasicService.switchState", fn.Pos(), fmt.Sprintf("state written ⇔ state == from (%s); lock taken once before the comparison and released only by defer: %v (Lock %d, Unlock %d of which deferred %d)", res.Summary(), oneHold, len(locks), len(unlocks), len(deferred)), res.Rows)
 }
